@@ -301,6 +301,8 @@ pub fn execute(sc: &SigScenario, sh: &Shared) -> Value {
       let mut body = || {
         let mut inj = InjectorPP::new();
         let mut faked_here: Vec<usize> = Vec::new();
+        // (address, original entry bytes) of every target accepted so far in this lifetime
+        let mut live: Vec<(usize, Vec<u8>)> = Vec::new();
         for (pi, p) in lt.iter().enumerate() {
             sh.note(PH_INSTALL, li as u64, pi as u64, 0);
             if p.t >= fam.len() || p.f >= fam.len() {
@@ -351,6 +353,16 @@ pub fn execute(sc: &SigScenario, sh: &Shared) -> Value {
                 _ => Some(false),
             };
             digest = digest.rotate_left(3) ^ (r.is_ok() as u64) ^ ((p.t * 64 + p.f) as u64);
+            // whatever this request's outcome: fakes accepted earlier through this injector stay
+            for (a, orig) in &live {
+                let cur: Vec<u8> = unsafe { std::slice::from_raw_parts(*a as *const u8, 16).to_vec() };
+                if &cur == orig {
+                    v("earlier-accepted-fake-lost-after-a-later-request", &["C09", "C02"], format!("{what}: the function at {a:#x}, faked earlier through the same living injector, has its original entry bytes again"));
+                }
+            }
+            if r.is_ok() && p.kind == "pair" && !live.iter().any(|(a, _)| *a == taddr) {
+                live.push((taddr, before.clone()));
+            }
             match (&r, expect_accept) {
                 (_, None) => not_judged += 1,
                 (Ok(()), Some(true)) => {
